@@ -340,6 +340,18 @@ Theorem C12_kv_key_guard : forall raw t dbk, convert_redis_key_to_db_kv_key raw 
 Proof. exact convert_kv_key_spec. Qed.
 Print Assumptions C12_kv_key_guard.
 
+(* the keys of table T are exactly the redis keys with the prefix "T:" (separator included): the stop condition
+   of the index build scan; the bare table name as prefix also covers tables whose names extend T *)
+Theorem C12_table_of_key_by_prefix : forall t raw, no_sep t ->
+  (is_prefix (t ++ [table_start_sep]) raw <-> exists k, extract_table raw = Ok (t, k)).
+Proof. exact table_prefix_of_redis_key. Qed.
+Print Assumptions C12_table_of_key_by_prefix.
+
+Theorem C12_bare_table_prefix_refuted : exists t raw t' k,
+  no_sep t /\ is_prefix t raw /\ extract_table raw = Ok (t', k) /\ t' <> t.
+Proof. exact bare_table_prefix_refuted. Qed.
+Print Assumptions C12_bare_table_prefix_refuted.
+
 (* the u16 guard follows from common.CheckKey: raw and versioned collection keys fit the length field *)
 Theorem C12_verkey_fits_u16 : forall ver rk, N.of_nat (length rk) <= max_key_size -> len16 (encode_ver_key ver rk).
 Proof. exact verkey_len16. Qed.
